@@ -215,7 +215,9 @@ func SnapMsg(r *Rec, m *sipsp.PSIPMsg, buf []byte) {
 	r.Bool("Err()", m.Err())
 	r.Bool("Request()", m.Request())
 	r.Val("Method()", int64(m.Method()))
-	if m.Parsed() && !r.MaskBody {
+	// (RawMsg is nil after Reset()/Init() and in a new object, so a non-empty RawMsg was set by
+	// this parse: the success exit and the missing-Content-Length exit both set Buf and RawMsg)
+	if (m.Parsed() || len(m.RawMsg) > 0) && !r.MaskBody {
 		// Buf / RawMsg are documented to be saved when parsing is complete
 		r.Val("len(Buf)", int64(len(m.Buf))-int64(r.Base))
 		r.Val("len(RawMsg)", int64(len(m.RawMsg)))
